@@ -57,7 +57,8 @@ theorem readName_result_valid (buf : Bytes) (pos : Nat) (n : Name) (e : Nat) (h 
       split at h
       · cases h
       · split at h
-        · split at h
+        · try simp only at h
+          split at h
           · unfold finishName at h
             cases hn : newName labels with
             | ok n' =>
@@ -73,7 +74,7 @@ theorem readName_result_valid (buf : Bytes) (pos : Nat) (n : Name) (e : Nat) (h 
         · split at h
           · split at h
             · cases h
-            · simp only at h
+            · try simp only at h
               split at h
               · cases h
               · exact ih _ _ _ _ h
